@@ -103,3 +103,10 @@ add(
     "Trusts vf/lang.py; compiler NotImplementedError (e.g. python slices, reductions in Contraction) and tracer errors are declines.",
     "DESIGN.md section 3 C18",
 )
+add(
+    "C19",
+    "property-based testing: generated arrays/name maps and funsors vs. explicit numpy indexing (round trip), plus metamorphic relations for align and materialize",
+    "Bounded exploration: to_funsor with every placement of names over rank 0-5 arrays (real and bounded-integer, event rank 0-2) compared element-wise at every named point, to_data round trip up to size-1 batch dims and independent of the funsor's input order; align with permutations on Tensors (data == transposed array), lazy terms, Contractions and Gaussians (value at every point); Tensor.materialize of lazy index expressions against the reference evaluator.",
+    "Trusts numpy indexing/transposition and vf/lang.py for lazy terms; align is exercised with permutations of all names on non-Tensor terms (as documented).",
+    "DESIGN.md section 3 C19",
+)
